@@ -157,9 +157,9 @@ func c16Layers() []c16Layer {
 func genPages(r *Rng, k int) []int {
 	switch r.Intn(8) {
 	case 0:
-		return []int{-1}
+		return []int{-1, 1, -1}
 	case 1:
-		return []int{0}
+		return []int{0, 2, 0}
 	case 2:
 		return []int{k + 1, 1, 1}
 	case 3:
@@ -178,6 +178,10 @@ func genPages(r *Rng, k int) []int {
 		n := []int{1, 1, 2, 3, 5, 7}[r.Intn(6)]
 		ps = append(ps, n)
 		total += n
+		if r.Intn(6) == 0 { // a "rest of the directory" call in the middle: the handle must be at the end afterwards
+			ps = append(ps, []int{0, -1}[r.Intn(2)])
+			total = k + 2
+		}
 	}
 	return append(ps, 1)
 }
@@ -295,13 +299,12 @@ func runC16(r *Rng, n int, replay string) {
 					seen[e.Name()]++
 				}
 				c.Text = append(c.Text, fmt.Sprintf("  ReadDir(%d) -> %d entries, err=%v", p, len(page), err))
-				if p <= 0 {
-					if pi == 0 {
-						if err != nil || len(page) != k {
-							fail("page:all", "ReadDir(%d) on a fresh handle returned %d entries, err=%v (want all %d, nil)", p, len(page), err, k)
-						}
-						remaining = 0
+				if p <= 0 { // like os.File: all entries that remain, nil error, and the handle is at the end afterwards
+					_ = pi
+					if err != nil || len(page) != remaining {
+						fail("page:rest", "ReadDir(%d) returned %d entries, err=%v (want the %d remaining of %d, nil)", p, len(page), err, remaining, k)
 					}
+					remaining = 0
 					continue
 				}
 				switch {
